@@ -11,7 +11,6 @@ import (
 
 	"verif/sim/gql"
 	"verif/sim/sched"
-	"verif/sim/simnet"
 )
 
 // C13: the same operation k times on one gateway under k different schedules.
@@ -53,44 +52,7 @@ func scenDET(s *sched.Sim, cfg Config, res *Result) {
 		poison = 1 + s.T.Choose(3)
 	}
 	salt := fmt.Sprint(s.T.Choose(1 << 20))
-	poisoned := func(url string, r wireReq) bool {
-		if poison == 0 {
-			return false
-		}
-		vb, _ := json.Marshal(r.Variables)
-		h := HashKey(salt, url, r.Query, string(vb))
-		return int(h[0])%8 < poison
-	}
-	env.net.FaultFor = func(m *simnet.Message) *simnet.Fault {
-		reqs, mp, _, _, _, err := parseWire(m)
-		if err != nil || mp {
-			return nil
-		}
-		any := false
-		for _, r := range reqs {
-			if poisoned(m.URL, r) {
-				any = true
-			}
-		}
-		if !any {
-			return nil
-		}
-		return &simnet.Fault{Kind: "element-errors(content-keyed)", Mutate: func(b []byte) []byte {
-			var arr []map[string]interface{}
-			if json.Unmarshal(b, &arr) != nil || len(arr) != len(reqs) {
-				return b
-			}
-			for i, r := range reqs {
-				if poisoned(m.URL, r) {
-					vb, _ := json.Marshal(r.Variables)
-					arr[i] = map[string]interface{}{"data": nil, "errors": []interface{}{map[string]interface{}{
-						"message": "poisoned:" + HashKey(r.Query, string(vb)), "extensions": map[string]interface{}{"code": "POISON"}}}}
-				}
-			}
-			nb, _ := json.Marshal(arr)
-			return nb
-		}}
-	}
+	env.net.FaultFor = poisonFault(poison, salt)
 	type rep struct {
 		data   string
 		errs   []string
